@@ -724,3 +724,40 @@ Section GlueCfg.
              (stdout stderr : list N) : list N :=
     cache_write (compress_at (zstd_level env)) objs stdout stderr.
 End GlueCfg.
+
+(* ------------------------------------------------------------------ histories of packs on one thread
+   An output file is read while it is packed, and reading can fail part-way (I/O error after n bytes).  put_object then
+   returns the error and the CacheWrite is dropped.  On the code that exists every put_object builds its own zstd
+   encoder (zstd::stream::copy_encode), so NOTHING is carried from one pack to the next: the result of a pack is a
+   function of its own inputs, whatever the thread packed — or failed to pack — before. *)
+Definition source : Type := (list N * option N)%type.     (* contents; Some n = the read fails after n bytes *)
+
+Definition read_source (s : source) : option (list N) :=
+  match snd s with None => Some (fst s) | Some _ => None end.
+
+Definition pack_op : Type := (list (list N * option N * source) * list N * list N)%type.   (* objects, stdout, stderr *)
+
+Section GlueHist.
+  Variable compress : list N -> list N.
+
+  (* put_object for every object in order; the first failing read aborts the pack *)
+  Fixpoint put_sources (w : list member) (objs : list (list N * option N * source)) : option (list member) :=
+    match objs with
+    | [] => Some w
+    | (name, mode, src) :: r =>
+      match read_source src with
+      | Some content => put_sources (put_object compress w name content mode) r
+      | None => None
+      end
+    end.
+
+  Definition pack_one (op : pack_op) : option (list N) :=
+    match put_sources [] (fst (fst op)) with
+    | Some w => Some (write_zip (put_bytes compress (put_bytes compress w NAME_STDOUT (snd (fst op))) NAME_STDERR (snd op)))
+    | None => None
+    end.
+
+  (* one thread, one pack after the other *)
+  Definition pack_history (ops : list pack_op) : list (option (list N)) := map pack_one ops.
+End GlueHist.
+
